@@ -25,7 +25,7 @@ Spec == Init /\ [][Next]_vars
 
 ASSUME DemandsOK
 
-TypeOK == /\ shape.kind \in Kinds /\ grants \subseteq AllGrants
+TypeOK == /\ shape.kind \in AllKinds /\ grants \subseteq AllGrants
           /\ phase \in {"request", "done"} /\ executed \in BOOLEAN
 
 (* the property: a statement executes only if every demanded permission is held *)
